@@ -127,8 +127,17 @@ def native_replay(h, prop, workdir):
     from . import cscan
     for k, tu in enumerate(nat.get('tus', h.tus)):
         path = os.path.join(core.REPO, tu)
-        src, edits = cscan.rename_definitions(open(path).read(), so)
-        if edits:
+        text = open(path).read()
+        injs = [i for i in h.injections if i.get('file') == tu and i['kind'] in ('inject', 'prelude')] if nat.get('inject') else []
+        if injs:
+            # ghost statements the harness depends on (e.g. the one-instruction step counter) are needed natively too:
+            # same injector, same identity proof as for the CBMC build
+            sub = os.path.join(workdir, 'inj%d' % k)
+            os.makedirs(sub, exist_ok=True)
+            dst, _lm, _f = core.inject(tu, injs, sub)
+            text = open(dst).read()
+        src, edits = cscan.rename_definitions(text, so)
+        if edits or injs:
             path = os.path.join(workdir, 'tu%d_%s' % (k, os.path.basename(tu)))
             open(path, 'w').write('#line 1 "%s"\n' % os.path.join(core.REPO, tu) + src)
         w.append('#include "%s"' % path)
